@@ -84,7 +84,7 @@ def harness_sources(crate):
             if rel == "lib":
                 rel = ""
             txt = open(path).read()
-            for m in re.finditer(r"((?:\s*(?:///[^\n]*|#\[[^\]]*\])\s*\n?)*)\s*fn (\w+)\(\)\s*\{", txt):
+            for m in re.finditer(r"((?:\s*(?:///[^\n]*|#\[[^\]]*\])\s*\n?)*)\s*(?:pub )?fn (\w+)\(\)\s*\{", txt):
                 attrs, name = m.group(1), m.group(2)
                 um = re.search(r"kani::unwind\((\d+)\)", attrs)
                 doc = " ".join(x.strip()[3:].strip() for x in attrs.splitlines() if x.strip().startswith("///"))
